@@ -8,6 +8,7 @@ CONSTANTS
   MaxFaultPos = 8
   OptSet <- OptsAll
   Colls = {"default", "custom"}
+  CancelModes = {}
   Depth = 12
   ExcludedConsulted = TRUE
   Mut = "none"
